@@ -10,7 +10,7 @@ import (
 
 // C19 — language-value containers as ordered maps.
 
-var c19Tags = []string{"en", "fr", "-"}
+var c19Tags = []string{"en", "fr", "-", ""}
 var c19Texts = []string{"a", "b", ""}
 
 type nlvCase struct {
